@@ -112,6 +112,19 @@ class _Monitor:
 # element's own pattern, identical for every caller -- treated as benign memoisation, everything else counts as interference
 BENIGN = ('_re',)
 
+class _Probe(str):
+    """a document whose first use by the parsing machinery (pyparsing calls expandtabs() on the text before matching) runs a
+    callback: the shared state is inspected WHILE a parse call is in progress.  If a refactoring stops calling expandtabs the
+    callback simply does not fire and nothing is concluded from it."""
+    hook = None
+
+    def expandtabs(self, *a):
+        h, self.hook = self.hook, None
+        if h is not None:
+            h()
+        return str.expandtabs(self, *a)
+
+
 _SHARED = {}
 
 
@@ -182,10 +195,17 @@ def again(b_kind, K=1, fix=None):
                 c1 = content(docs.parse(A))
             except Exception:
                 return 'valid document rejected'
+            midway = []
+            if b_kind in ('valid', 'options', 'semantic'):
+                # the document is concrete: hand it over as a probe that looks at the shared state while this parse is running
+                Bdoc = _Probe(Bdoc)
+                Bdoc.hook = lambda: midway.append(_fingerprint(el, mods, classes) != fp0)
             try:
                 docs.parse(Bdoc, **({'allow_properties': True} if b_kind == 'options' else {}))
             except Exception:
                 pass
+            if midway and midway[0]:
+                return 'while a parse call is in progress the shared grammar / class / module state differs from its idle state (a concurrent parse would see it)'
             try:
                 c2 = content(docs.parse(A))
             except Exception:
